@@ -131,6 +131,23 @@ CHECKS = {
              "FlowSampler(...).run(save=True) under step budgets ~15-100x nominal; the outcome must be a configuration error before the first sampler likelihood call or a clean "
              "finish with finite results that satisfy the C05 oracle. Thorough adds 2 seeds and ~600 random compatible pair/triple rows on 2- and 3-parameter models.",
         note="liveness is restated as bounded progress; a wall-clock watchdog without budget overrun is inconclusive; astropy/lal-dependent options are not reachable", ref="DESIGN.md §3 C20"),
+    "C06": dict(
+        cat="exploration", technique="statistical monitor over many seeded real runs per configuration cell against closed-form evidences and posterior moments, fixed thresholds at total false-alarm 1e-9",
+        text="7 cells x 24 seeds (thorough 16 cells x 200 seeds) of both samplers on Gaussian-likelihood models with uniform and truncated-normal priors: finite evidence and "
+             "positive error, mean error within a Student-t bound plus the stated Jensen/discretisation allowance, variance ratio of errors to reported uncertainties within "
+             "chi-square bounds (kappa 2), pooled posterior means and variances against the truncated-Gaussian closed form, insertion-index p-values; a failing cell is re-run "
+             "with fresh seeds and reported only if it fails again. Cells include uninformed sampling disabled, analytic non-uniform priors, augmented proposal, MAF + logit + "
+             "shrinkage 't', INS default and strict/non-uniform.",
+        note="cannot see a bias below ~q sd/sqrt(S) (reported per cell as 'resolution': ~0.27 in log Z at 24 seeds, ~0.07 at 200 seeds for the standard sampler; ~0.03 / 0.01 for INS)",
+        ref="DESIGN.md §3 C06"),
+    "C19": dict(
+        cat="exploration", technique="read-back monitor: result/config files written by real runs and by the real writers on harvested-template dictionaries are re-read with the standard readers and compared canonically with the in-memory object",
+        text="36 real runs (thorough 255) of both samplers x {json, hdf5, h5} x three filename spellings: every key and value of the file is compared with the dictionary "
+             "handed to the writer (bit-equal floats incl. NaN/inf, ints, numpy scalars, structured arrays column by column, None); 1500 (30000) dictionaries generated from "
+             "113 value templates harvested from real results are written in both formats and read back; 200 (2000) generated keyword-argument sets incl. classes, pools, "
+             "callables, torch dtypes check that config.json loads with the standard JSON reader.",
+        note="generated dictionaries only contain value shapes that some real configuration produces (a free generator would report things the writers were never asked to do)",
+        ref="DESIGN.md §3 C19"),
 }
 
 PENDING_REASON = "check designed in DESIGN.md but not yet built/calibrated in this session; not claimed until its monitor is silent on the unchanged tree"
